@@ -232,3 +232,17 @@ Theorem C07_TRANSL_quadtree_step : forall (O : Ops) (origin : V2 O) (res : T O) 
          (fun vi => (Octree.quad_point origin res vi, fv vi)) v (Z.of_nat (S m))).
 Proof. exact (@GenEqOct.quadtree_step). Qed.
 Print Assumptions C07_TRANSL_quadtree_step.
+
+(* ---- inventory of mutable state (DESIGN.md 2.3).  The models above are functions of their arguments; they are
+   faithful only as long as the code keeps no state between calls beyond what they mention.  The package-level
+   variables and struct fields in the scope of C07 (and which of them are written outside construction, from which
+   entry points) are regenerated from the current source on every run (harness/stategen -> Generated/StateInv.v)
+   and contain no state beyond the expected, reviewed inventory of Sys/StateInvSpec.v, where every piece of state
+   that legitimately exists names the model component that accounts for it.  Breaks when a written package-level
+   variable, a struct field, or a write of a field outside its constructor is added in scope (coqc then prints the
+   differences); tolerates moved declarations, reordered fields, renamed locals, new helpers / constants / tables
+   nothing writes. *)
+From Sdfx Require Sys.StateInvSpec Sys.StateInvC07.
+Theorem C07_state_inventory : Sdfx.Sys.StateInvSpec.state_ok_C07 = true.
+Proof. exact Sdfx.Sys.StateInvC07.C07_state_inventory. Qed.
+Print Assumptions C07_state_inventory.
